@@ -3,6 +3,7 @@ package c15
 import (
 	"bufio"
 	"net"
+	"strings"
 	"sync"
 	"sync/atomic"
 	"time"
@@ -17,6 +18,8 @@ var hostileKinds = []string{
 	"prompt-no-cr",         // "Callsign :" without the CR, then nothing
 	"garbage-no-cr",        // endless stream of bytes without any CR (keeps the read busy)
 	"garbage-lines",        // endless stream of CR-terminated lines that are no prompts
+	"flood-lines",          // the same at full speed in minimal lines: thousands of lines per read, the dialler is hardly ever inside a read
+	"flood-prompts",        // callsign prompts at full speed, answers never read
 	"prompt-then-silence",  // proper callsign prompt, reads the answer, never continues
 	"callsign-forever",     // answers every callsign with another callsign prompt
 	"password-no-cr-drip",  // callsign prompt, then "Password :" dripped byte-wise, never a CR
@@ -142,6 +145,27 @@ func (h *hostile) serve(c net.Conn) {
 				return
 			}
 			if !h.sleep(5 * time.Millisecond) {
+				return
+			}
+		}
+	case "flood-lines", "flood-prompts":
+		go h.drain(c)
+		unit := "x\r"
+		if h.kind == "flood-prompts" {
+			unit = promptCall
+		}
+		chunk := []byte(strings.Repeat(unit, 32768/len(unit)))
+		for {
+			select {
+			case <-h.stop:
+				return
+			default:
+			}
+			c.SetWriteDeadline(time.Now().Add(200 * time.Millisecond)) // so that stop is noticed while the dialler does not read
+			if _, err := c.Write(chunk); err != nil {
+				if ne, ok := err.(net.Error); ok && ne.Timeout() {
+					continue
+				}
 				return
 			}
 		}
